@@ -72,6 +72,8 @@ impl Cfg {
 }
 /// Half-life of a path's reliability penalty (reliability.rs) - the "freshness" unit of C07.
 pub const HALF_LIFE: u32 = 90;
+/// Half-life of a cached issue (issues.rs IssueMarker::SYSTEM_HALF_LIFE).
+pub const ISSUE_HALF_LIFE: u32 = 30;
 
 // ---------------------------------------------------------------------------------------------
 // Histories
@@ -240,6 +242,7 @@ pub struct Stats {
     pub tie_points: u32,
     pub recover_selected: u32,
     pub quiet_ticks: u32,
+    pub steer_stale_report: u32,
 }
 
 pub struct World {
@@ -323,7 +326,7 @@ impl World {
     pub fn observe(&self) -> Obs {
         let now = self.now;
         let mk = |p: sciparse::path::ScionPath| SlotObs {
-            id: self.fps.get(&p.fingerprint()).copied(),
+            id: identify(&p),
             expiry: p.expiration(),
             endpoints_ok: p.src_ia() == ia(SRC) && p.dst_ia() == ia(DST),
             has_meta: p.metadata().is_some(),
@@ -489,7 +492,13 @@ impl World {
         let unexpired = |e: &Option<u32>| e.map(|e| e > now).unwrap_or(false);
         // (a) steering
         if let Some(s) = before.slot_id() {
-            let hits: Vec<usize> = consumed.iter().map(|(k, _)| *k).filter(|k| ref_issue_on_path(*k, s)).collect();
+            // "at once" is about reports the worker gets promptly: the explorer may hold a report back
+            // arbitrarily long (a starved worker); a report older than the issue half-life (30 s) when
+            // it is finally consumed has decayed by the crate's own rule and demands nothing
+            if consumed.iter().any(|(k, t)| ref_issue_on_path(*k, s) && now - *t > ISSUE_HALF_LIFE) {
+                self.stats.steer_stale_report += 1;
+            }
+            let hits: Vec<usize> = consumed.iter().filter(|(_, t)| now - *t <= ISSUE_HALF_LIFE).map(|(k, _)| *k).filter(|k| ref_issue_on_path(*k, s)).collect();
             if !hits.is_empty() {
                 self.stats.issue_consumed_on_slot += 1;
                 // alternatives: cached after the step, unexpired, avoiding every failed interface reported on the slot's path
@@ -599,7 +608,7 @@ impl World {
     /// Returns whether a p1/p2 tie point was met.
     fn tick(&mut self, t: u32, o: Out, is_init: bool, stutter: bool) -> Result<bool, Stop> {
         self.now = t;
-        let watch = self.checking || self.trace.is_some() || (o.set.ids().contains(&0) && o.set.ids().contains(&1));
+        let watch = self.checking || self.trace.is_some() || TIE_GROUP.iter().filter(|g| o.set.ids().contains(g)).count() >= 2;
         let before = if watch { self.observe() } else { Obs::default() };
         let before_ids: Vec<usize> = before.cache.iter().map(|c| c.0).collect();
         let res: Result<Vec<_>, ()> = match o.set {
@@ -679,9 +688,10 @@ impl World {
         // tie point?
         let newc: Vec<usize> = o.set.ids().iter().copied().filter(|id| ref_policy_allows(*id) && !before_ids.contains(id)).collect();
         let mut tie_point = false;
-        if newc.contains(&0) && newc.contains(&1) {
-            let p1 = after.cache.iter().position(|c| c.0 == 0);
-            let p2 = after.cache.iter().position(|c| c.0 == 1);
+        let tied: Vec<usize> = TIE_GROUP.iter().copied().filter(|g| newc.contains(g)).collect();
+        if tied.len() == 2 {
+            let p1 = after.cache.iter().position(|c| c.0 == tied[0]);
+            let p2 = after.cache.iter().position(|c| c.0 == tied[1]);
             let observed = match (p1, p2) {
                 (Some(a), Some(b)) => {
                     if (after.cache[a].2 - after.cache[b].2).abs() < 1e-6 {
@@ -855,7 +865,7 @@ impl World {
     }
 
     fn slot_id_now(&self) -> Option<usize> {
-        self.pr.active().and_then(|p| self.fps.get(&p.fingerprint()).copied())
+        self.pr.active().and_then(|p| identify(&p))
     }
     fn note_hits(&mut self, slot_before: Option<usize>, consumed: &[(usize, u32)]) {
         if let Some(s) = slot_before {
